@@ -1170,7 +1170,46 @@ def rule_no_character_skipped(ctx: Ctx, rep: Report) -> None:
     rep.floor(rule, 1)
 
 
+def rule_map_lengths_are_compact_sizes(ctx: Ctx, rep: Report) -> None:
+    """C05.map_lengths_are_compact_sizes: BIP174 writes <keylen> and <valuelen> as
+    compact sizes and so do the library's writers (`var_bytes.serialize`):
+    the reader of a map takes both lengths with `var_int.parse` (or the pair
+    with `var_bytes.parse`). One octet read as the length is the same thing
+    up to 252 and another map from 253 on -- a proprietary key with a long
+    identifier, a MuSig2 key -- where parse(serialize(x)) is no longer x."""
+    rule = "C05.map_lengths_are_compact_sizes"
+    fi = ctx.func("btclib.psbt.psbt_utils.deserialize_map")
+    local = {a.targets[0].id: a.value for a in own_nodes(fi.node) if isinstance(a, ast.Assign) and len(a.targets) == 1 and isinstance(a.targets[0], ast.Name)}
+    n = 0
+    for c in sorted((c for c in own_nodes(fi.node) if isinstance(c, ast.Call)), key=lambda c: (c.lineno, c.col_offset)):
+        nm = call_name(c)
+        if nm == "read_exactly" and len(c.args) >= 2:
+            size = c.args[1]
+            if isinstance(size, ast.Name) and size.id in local:
+                size = local[size.id]
+            ok = isinstance(size, ast.Call) and norm(size.func) in ("var_int.parse", "var_int_parse")
+            n += 1
+            rep.ob(rule, f"deserialize_map:read#{n}", ok, fi.where(c), "length read as a compact size" if ok else
+                   f"`{norm(c)}` takes its length from `{norm(c.args[1])}`, not from a compact size: a key or value of 253 octets or more is read as another map than the one written")
+        elif norm(c.func) == "var_bytes.parse":
+            n += 1
+            rep.ob(rule, f"deserialize_map:read#{n}", True, fi.where(c), "length and octets read by var_bytes.parse")
+    rep.floor(rule, 2)
+
+
+def rule_ctor_args_in_order_(ctx: Ctx, rep: Report) -> None:
+    """C05.ctor_args_in_order: to_dict/from_dict is part of the round trip; no
+    from_dict passes one field's entry in another field's position
+    (sigcommon.ctor_args_in_order, whole package)."""
+    from rules import sigcommon
+    sigcommon.rule_ctor_args_in_order(ctx, rep, "C05.ctor_args_in_order", ("btclib.",), 40)
+
+
 RULES = [
+    ("C05.ctor_args_in_order", rule_ctor_args_in_order_),
+
+    ("C05.map_lengths_are_compact_sizes", rule_map_lengths_are_compact_sizes),
+
     ("C05.no_character_skipped", rule_no_character_skipped),
 
     ("C05.value_parsed_whole", rule_value_parsed_whole),
